@@ -15,6 +15,7 @@ uint32_t vs_choose(uint32_t n);                             // fork: returns 0..
 void vs_setenv(const char* name, const char* value);          // environment variable visible to getenv()
 void vs_file(const char* path, const char* data, unsigned long len);   // a readable file with this content (model file table / real file in the native build)
 void vs_setpid(int pid);                                    // the process continues as another process (as after fork()): getpid() returns pid from now on
+void vs_setclock(uint64_t nanoseconds_since_epoch);         // std::chrono::system_clock::now() returns this instant from now on
 void vs_note(const char* what, uint64_t value);             // observable (compared natively vs symbolic-concrete)
 }
 #define HX extern "C" __attribute__((noinline))
